@@ -59,6 +59,11 @@ CHECKS = {
             "values incl. non-exception returns; invalid error arguments on every decorator. The monitor inspects the exception "
             "object the caller catches and the factory's received objects.",
             "Executions produced only; exhaustive over the listed finite product (factory subsets sampled beyond 24/64).", "3/C09"),
+    "C10": ("exploration", "runtime monitoring: online monitor over the dynamic stack of probes and invocations, recursion-limit sanitizer",
+            "Random finite call graphs among contracted functions/methods/objects where every probe runs a script of further calls "
+            "(contract probes also with unlimited budgets); each invocation is judged from its own observed context by the statement's "
+            "exemption rule; termination under a lowered recursion limit and an event budget.",
+            "Executions produced only; breadth blow-ups beyond the event budget are abandoned (counted), watchdog = inconclusive.", "3/C10"),
     "C13": ("exploration", "runtime monitoring: differential event traces of paired def / async def renderings of the same program under identical probes",
             "Each generated program is rendered twice and driven with identical truth assignments and body scripts; the monitor compares "
             "the probe logs and outcomes of the two renderings and both against the model; async-only condition forms are mixed into "
